@@ -44,9 +44,11 @@ func run1(r *harness.Run, c cell) (libOK bool, ref refauth.Result, err error) {
 	return verdict == nil, ref, nil
 }
 
+var histVers = map[string]bool{"1": true, "6": true, "10": true, "11": true, "12": true, "org.matrix.hydra.11": true}
+
 var userRe = regexp.MustCompile(`@[a-z0-9_]+:[a-z0-9.]+`)
 
-func pseudoAgrees(r *harness.Run, c cell, plain bool) error {
+func usersOf(c cell) []string {
 	set := map[string]bool{}
 	add := func(s string) {
 		for _, u := range userRe.FindAllString(s, -1) {
@@ -68,6 +70,29 @@ func pseudoAgrees(r *harness.Run, c cell, plain bool) error {
 		users = append(users, u)
 	}
 	sort.Strings(users)
+	return users
+}
+
+// historicalAgrees: the same cell with every user renamed to an ID of the historical grammar must get the same verdict.
+func historicalAgrees(r *harness.Run, c cell, plain bool) error {
+	enc := c.Sc.HistoricalEncode(usersOf(c))
+	r.Eval()
+	var verdict, berr error
+	if p, msg := harness.Try(func() { verdict, berr = enc.Run() }); p {
+		return fmt.Errorf("Allowed panics when the users carry historical-grammar IDs: %s", msg)
+	}
+	if berr != nil {
+		return nil
+	}
+	r.Count("historical_id_encodings_compared", 1)
+	if (verdict == nil) != plain {
+		return fmt.Errorf("room version %s, %s %v: allowed=%v, but Allowed = %v once every user is renamed consistently to an ID with capitals and '+' in the localpart", c.Sc.Version, c.Class, c.Labels, plain, verdict)
+	}
+	return nil
+}
+
+func pseudoAgrees(r *harness.Run, c cell, plain bool) error {
+	users := usersOf(c)
 	enc, q := c.Sc.PseudoEncode(users)
 	r.Eval()
 	var verdict, berr error
@@ -140,6 +165,15 @@ func run(r *harness.Run) {
 				if sk := c.Sc.Event.StateKey; !(sk != nil && strings.HasPrefix(*sk, "@") && c.Sc.Event.Type != "m.room.member") {
 					if e := pseudoAgrees(r, c, ok); e != nil {
 						r.Violation(fmt.Sprintf("cell-pseudo:%s:%s:%s", c.Class, c.Sc.Version, c.Key()), e.Error(), "cell", c)
+					}
+				}
+			}
+			if histVers[j.ver] && j.cls != "3pid" {
+				// users renamed to historical-grammar IDs (capitals, '+'): same verdict. Not compared: third-party invites (signed
+				// block names the user) and events whose '@'-state key is not a member event's (literal text rule).
+				if sk := c.Sc.Event.StateKey; !(sk != nil && strings.HasPrefix(*sk, "@") && c.Sc.Event.Type != "m.room.member") {
+					if e := historicalAgrees(r, c, ok); e != nil {
+						r.Violation(fmt.Sprintf("cell-historical:%s:%s:%s", c.Class, c.Sc.Version, c.Key()), e.Error(), "cell", c)
 					}
 				}
 			}
